@@ -40,15 +40,22 @@ def showM {α} (f : α → String) : Go.M α → String
 def report (fn input : String) (gen model : String) : IO Unit :=
   IO.println s!"MISMATCH {fn} | {input} | regenerated: {gen} | model: {model}"
 
-/-- first element of `xs` on which `gen` and `model` print differently -/
+/-- the inputs of `xs` on which `gen` and `model` print differently: the first one of each KIND of disagreement (the first
+    word of the two answers — accepted where the model rejects is another kind than rejected where it accepts), at most four -/
 def firstDiff {α} (fn : String) (xs : List α) (inp : α → String) (gen model : α → String) : IO Nat := do
+  let kind (t : String) : String := (t.splitOn " ").headD "" |>.take 12
+  let mut seen : List (String × String) := []
   for x in xs do
     let g := gen x
     let m := model x
     if g != m then
-      report fn (inp x) g m
-      return 1
-  return 0
+      let k := (kind g, kind m)
+      if !seen.contains k then
+        seen := k :: seen
+        report fn (inp x) g m
+        if seen.length ≥ 4 then
+          return 1
+  return (if seen.isEmpty then 0 else 1)
 
 def rep (c : Char) (n : Nat) : Str := List.replicate n c
 
